@@ -1222,9 +1222,13 @@ def plural_fn(
     v = expr_fn(ctx, fn_name, [expr], lambda x: x)
     # XXX for some language codes, this is more complex.  See {{plural:...}} in
     # https://www.mediawiki.org/wiki/Help:Magic_words
-    if v == "1":  # expr_fn() returns the formatted value as a string
-        return expander(args[1]).strip() if len(args) >= 2 else ""
-    return expander(args[2]).strip() if len(args) >= 3 else ""
+    forms = args[1:]
+    if not forms:
+        return ""
+    # expr_fn() returns the formatted value as a string.  When fewer forms
+    # are given than needed, the last one is used ({{plural:2|page}})
+    idx = 0 if v == "1" else 1
+    return expander(forms[min(idx, len(forms) - 1)]).strip()
 
 
 def month_num_days(ctx: "Wtp", t: datetime) -> int:
